@@ -127,3 +127,8 @@ package module
 
 // Sentinel errors are set at package initialisation and never reassigned.
 //@ axiom err-unknown-credentials-set: ErrUnknownCredentials != nil
+// Level names (diagnostics only).
+//@ func (MXLevel).String
+//@   prop C05
+//@ func (TLSLevel).String
+//@   prop C05
